@@ -1,5 +1,262 @@
-"""Index-set coverage of scratch buffers (C06.R5) — filled in with the loop summariser (A3)."""
+"""Index-set coverage of transform scratch buffers (C06.R5): in each execute_* method of an FFT processor the
+index sets written to each scratch buffer before the transform call must cover exactly what the transform reads,
+so that nothing left over from an earlier call (or from the allocator) can reach the output."""
+import re
+
+from . import asm, bounds, summ, sym
+from .sym import I, ZERO
+from .pipeline import AnalysisBroken
+
+NOINLINE = summ.InlineLib(only=lambda f: False)
+TRANSFORMS = {
+    # callee -> index of the arguments that are read as input arrays
+    "fft_transform": [1, 2], "fft_transform_reverse": [1, 2], "fft": [1], "ifft": [1], "fftw_execute": [],
+}
+H = sym.sym("h")        # N = 2h (N is a power of two >= 2)
+
+
+def field_values(v, rec):
+    """this->field -> value term from the processor constructor (over the ctor parameter N)"""
+    ctors = [c for c in v.defined() if c.get("record") == rec and c.get("kind") == "ctor" and not c.get("implicit") and not c.get("copy")]
+    if len(ctors) != 1:
+        raise AnalysisBroken("constructor of %s not found" % rec)
+    ps, eff = summ.pieces(v, ctors[0], hooks=NOINLINE)
+    this = sym.sym("this")
+    vals = {}
+    for p in ps:
+        if p["kind"] == "store" and p["op"] == "=" and not p["loops"] and p["lv"][0] == "fld" and p["lv"][1] == sym.idx(this, ZERO):
+            vals[p["lv"]] = p["val"]
+    return vals, ctors[0], ps
+
+
+def extent_of(v, buf_lv, vals, allocs):
+    """number of elements the transform may read from this buffer, as a term over the ctor parameter"""
+    val = vals.get(buf_lv)
+    if val is None:
+        return None, "buffer is not set by the constructor"
+    if val in allocs:
+        return allocs[val]
+    # pointer derived from another buffer (imag = real + Ns2): not a separately allocated array
+    return None, "derived pointer %s" % sym.show(val)[:60]
+
+
+def to_h(t, vals, nparam):
+    """express a term over this->fields / the ctor parameter in h, with N = 2h"""
+    m = dict(vals)
+    t2 = sym.rewrite(t, m)
+    t2 = sym.rewrite(t2, m)
+    return sym.rewrite(t2, {nparam: sym.mul(I(2), H)})
+
+
+def covered(sets, extent):
+    """sets: list of (stride int, offset term, count term) meaning {stride*i + offset : 0 <= i < count}.
+    True iff their union is [0, extent) — decided per residue class with symbolic counts."""
+    if not sets:
+        return False, "no write before the transform"
+    strides = {s for s, _, _ in sets}
+    s = max(strides)
+    if any(s % x for x in strides):
+        return False, "mixed strides %s" % sorted(strides)
+    maxes = []
+    for r in range(s):
+        best = None
+        for st, off, cnt in sets:
+            # a set with stride st covers residues off + st*i (mod s): expand to stride s
+            for k in range(s // st):
+                o = sym.add(off, I(st * k))
+                ov = sym.const_value(o)
+                c2 = None
+                if ov is None:
+                    continue
+                if ov % s != r:
+                    continue
+                # elements: s*j + ov for j in [0, ceil((cnt - k)/ (s/st)))
+                if s == st:
+                    c2 = cnt
+                else:
+                    c2 = ("op", "/", sym.add(sym.sub(cnt, I(k)), I(s // st - 1)), I(s // st))
+                    c2 = sym.binop("/", sym.add(sym.sub(cnt, I(k)), I(s // st - 1)), I(s // st))
+                if ov >= s:
+                    continue
+                top = sym.add(sym.mul(I(s), sym.sub(c2, I(1))), I(ov))
+                if best is None:
+                    best = top
+                else:
+                    d = sym.const_value(sym.sub(top, best))
+                    if d is not None and d > 0:
+                        best = top
+        # descending sets (offset symbolic, negative stride) are handled by the caller as ascending equivalents
+        if best is None:
+            return False, "residue class %d mod %d is never written" % (r, s)
+        maxes.append(best)
+    want = {sym.sub(extent, I(j + 1)) for j in range(s)}
+    if set(maxes) != want:
+        return False, "largest written indices %s, the transform reads up to %s" % ([sym.show(m) for m in maxes], sym.show(sym.sub(extent, I(1))))
+    return True, "residue classes mod %d reach %s" % (s, [sym.show(m) for m in sorted(maxes, key=repr)])
 
 
 def check_c06_scratch(chk, v):
-    return
+    vn = v.name
+    procs = [r for r in v.records.values() if r["file"].startswith("libtfhe/fft_processors") and r.get("has_user_dtor")
+             and re.search(r"[Pp]rocessor", r["name"])]
+    for r in procs:
+        rec = r["name"]
+        vals, ctor, cps = field_values(v, rec)
+        nparam = sym.sym(ctor.params[0]["n"])
+        this = sym.sym("this")
+        # allocation extents (elements) of constructor-owned arrays
+        allocs = {}
+        for p in cps:
+            if p["kind"] != "call":
+                continue
+            x = p["eff"]
+            ret = x.get("ret")
+            if ret is None:
+                continue
+            if x["name"] in ("malloc", "fftw_malloc") and x["args"]:
+                allocs[ret] = ("bytes", x["args"][0])
+            elif x["name"] in ("new_fft_table", "new_ifft_table"):
+                allocs[("table", ret)] = x["args"][0]
+            elif x["name"] in ("fft_table_get_buffer", "ifft_table_get_buffer"):
+                tab = x["args"][0]
+                tabv = sym.rewrite(tab, vals)
+                n_ = allocs.get(("table", tabv))
+                if n_ is not None:
+                    allocs[ret] = ("elems", n_)
+        # fftw plans: plan field -> (input array field, kind, size)
+        plans = {}
+        for m in v.defined():
+            if m.get("record") != rec:
+                continue
+            mps, _ = summ.pieces(v, m, hooks=NOINLINE)
+            for p in mps:
+                if p["kind"] == "store" and p["val"][0] == "obj" and p["val"][1].startswith("fftw_plan_dft_"):
+                    kind = "r2c" if "r2c" in p["val"][1] else "c2r"
+                    a = p["val"][2]
+                    plans[p["lv"]] = (a[1], kind, a[0])
+        methods = [m for m in v.defined() if m.get("record") == rec and m.get("kind") == "method"]
+        for m in methods:
+            mps, _ = summ.pieces(v, m, hooks=NOINLINE)
+            tcalls = [p for p in mps if p["kind"] == "call" and p["name"] in TRANSFORMS]
+            if not tcalls:
+                continue
+            t = tcalls[0]
+            if t["name"] == "fftw_execute":
+                pl = plans.get(t["args"][0])
+                if pl is None:
+                    chk.assumed("R5", "%s::%s overwrites everything the transform reads" % (rec, m.name), where=m.where,
+                                detail="FFTW plan %s not resolved" % sym.show(t["args"][0]), variant=vn)
+                    continue
+                arr, kind, size = pl
+                bufs = [(arr, sym.add(sym.binop("/", to_h(size, vals, nparam), I(2)), I(1)) if kind == "c2r" else to_h(size, vals, nparam))]
+            else:
+                bufs = []
+                for ai in TRANSFORMS[t["name"]]:
+                    b = t["args"][ai]
+                    al = allocs.get(sym.rewrite(b, vals)) or allocs.get(vals.get(b))
+                    ext = None
+                    if al is not None:
+                        if al[0] == "bytes":
+                            ext = sym.binop("/", to_h(al[1], vals, nparam), I(8))
+                        else:
+                            ext = to_h(al[1], vals, nparam)
+                    bufs.append((b, ext))
+            for buf, ext in bufs:
+                key = "%s::%s writes every element of %s that %s reads" % (rec, m.name, sym.show(buf).replace("this->", ""), t["name"])
+                where = "%s:%s" % (m.file, t["line"])
+                if ext is None:
+                    chk.assumed("R5", key, where=where, detail="extent of the buffer not derivable from the constructor", variant=vn)
+                    continue
+                sets = []
+                unknown = []
+                for p in mps:
+                    if p["line"] >= t["line"]:
+                        continue
+                    if p["kind"] == "call" and p["name"].endswith("operator=") and p["args"] and p["args"][0] is not None \
+                            and p["args"][0][0] == "idx":
+                        # assignment to a std::complex element is an operator call
+                        p = dict(p, kind="store", lv=p["args"][0], op="=", val=p["args"][1] if len(p["args"]) > 1 else None)
+                    if p["kind"] == "store" and p["lv"][0] == "idx" and p["lv"][1] == buf and len(p["loops"]) == 1:
+                        lp = p["loops"][0]
+                        lin = sym.linear_in(p["lv"][2], lp["var"])
+                        if lin is None or sym.const_value(lin[0]) is None or lp["lo"] != ZERO or sym.const_value(lp["step"]) != 1:
+                            unknown.append(p["line"])
+                            continue
+                        a_, b_ = sym.const_value(lin[0]), to_h(lin[1], vals, nparam)
+                        cnt = to_h(lp["hi"] if lp["cmp"] == "<" else sym.add(lp["hi"], I(1)), vals, nparam)
+                        if a_ < 0:
+                            # descending: {b - |a| i : 0 <= i < cnt} == {|a| j + (b - |a|(cnt-1))}
+                            b_ = sym.sub(b_, sym.mul(I(-a_), sym.sub(cnt, I(1))))
+                            a_ = -a_
+                        if sym.const_value(b_) is None:
+                            # offset symbolic (e.g. N + i): shift into a base set when it is a multiple of the stride beyond another set
+                            sets.append((a_, b_, cnt))
+                        else:
+                            sets.append((a_, b_, cnt))
+                    elif p["kind"] == "asm":
+                        x = p["eff"]
+                        items = asm.inline_items(x["node"]["template"])
+                        regs, nout = asm.inline_operand_regs(x["node"])
+                        ins_terms = [tt for _, tt in x["ins"]]
+                        le = asm.lane_eval(items, regs, nout, ins_terms)
+                        for ptr, expr, in_loop in le["stores"]:
+                            if ptr != buf and sym.rewrite(ptr, vals) != sym.rewrite(buf, vals):
+                                continue
+                            from rules.c16 import loop_bound_terms
+                            lb = loop_bound_terms(items, le["loops"][0], regs, nout, ins_terms) if le["loops"] else None
+                            strides = asm.pointer_strides(le["loops"][0]["body"]) if le["loops"] else {}
+                            rev = {k: r_ for k, r_ in regs.items()}
+                            # the loop walks a source pointer over (end - start) elements; the destination advances in step
+                            dreg = next((r_ for k, r_ in regs.items() if k >= nout and ins_terms[k - nout] == ptr), None)
+                            cmpi = next((i_ for i_ in le["loops"][0]["body"] if i_.op == "cmpq"), None) if le["loops"] else None
+                            if lb is None or dreg is None or cmpi is None:
+                                unknown.append(p["line"])
+                                continue
+                            walk = cmpi.args[1][1]
+                            wstride, dstride = strides.get(walk), strides.get(dreg)
+                            wterm = next((ins_terms[k - nout] for k, r_ in regs.items() if k >= nout and r_ == walk), None)
+                            if not wstride or not dstride or wterm is None:
+                                unknown.append(p["line"])
+                                continue
+                            from .symexec import pointee_size
+                            # elements walked (in source elements) = lb[1] - lb[0]; iterations = that * elemsize / wstride
+                            selem = 4 if wstride == 16 else 8
+                            iters_x_lanes = to_h(sym.sub(lb[1], lb[0]), vals, nparam)          # source elements
+                            lanes_per_iter = wstride // selem
+                            dst_per_iter = dstride // 8
+                            if lanes_per_iter != dst_per_iter:
+                                unknown.append(p["line"])
+                                continue
+                            sets.append((1, ZERO, iters_x_lanes))
+                # combine sets with symbolic offsets: {i + c : i < cnt} with c == count of a base set -> extend it
+                base = [s_ for s_ in sets if sym.const_value(s_[1]) is not None]
+                sh = [s_ for s_ in sets if sym.const_value(s_[1]) is None]
+                for st, off, cnt in sh:
+                    merged = False
+                    for k, (st2, off2, cnt2) in enumerate(base):
+                        if st2 == st and sym.sub(off, sym.mul(I(st), cnt2)) == off2:
+                            base[k] = (st2, off2, sym.add(cnt2, cnt))
+                            merged = True
+                            break
+                    if not merged:
+                        # a strided set whose first element continues the odd/even lattice of another one
+                        for k, (st2, off2, cnt2) in enumerate(base):
+                            if st2 == st and sym.const_value(off2) is not None:
+                                d = sym.sub(off, sym.mul(I(st), cnt2))
+                                if sym.const_value(d) is not None and sym.const_value(d) == sym.const_value(off2):
+                                    base[k] = (st2, off2, sym.add(cnt2, cnt))
+                                    merged = True
+                                    break
+                    if not merged:
+                        unknown.append("offset %s" % sym.show(off))
+                if unknown and not base:
+                    chk.assumed("R5", key, where=where, detail="fill statements not in a recognised form (lines %s)" % unknown, variant=vn)
+                    continue
+                ok, detail = covered(base, ext)
+                if not ok and unknown:
+                    chk.assumed("R5", key, where=where, detail="%s; unrecognised fill statements at %s" % (detail, unknown), variant=vn)
+                    continue
+                chk.require(ok, "R5", key, where=where, ok="%d fill statement(s): %s; extent %s (with N = 2h)" % (len(sets), detail, sym.show(ext)),
+                            bad="%s (extent %s with N = 2h): an element left over from an earlier call or from the allocator feeds the transform" % (
+                                detail, sym.show(ext)), variant=vn)
+                chk.vcount(vn, "R5.scratch_buffers")
